@@ -321,16 +321,24 @@ func replayRegion(args []string) {
 					out.Trace("region", tr)
 				}
 			case "C11":
-				for _, bs := range bsizes {
-					for _, mode := range []string{"row", "batch"} {
+				if c.tier != "thorough" && idx%4 != int(envSeed()%4) {
+					break // quick: a rotating quarter of the trees (C02 runs all of them as DELETE too)
+				}
+				for bi2, bs := range bsizes {
+					for mi, mode := range []string{"row", "batch"} {
+						if c.tier != "thorough" && (bi2 != idx%len(bsizes) || mi != (idx/2)%2) {
+							continue // quick: one (mode, batch size) per case, rotating
+						}
 						o, sh := RunOn(delQ, pairs, RunOpts{Mode: mode, BSize: bs, Cache: true})
 						out.Stats.Evaluations++
 						if o.Phase != "done" {
 							out.Finding(Finding{Prop: c.prop, Kind: "delete-" + o.Phase, CaseID: id, Query: delQ, Detail: o.ErrMsg})
 							continue
 						}
-						out.Trace("store", storeTrace{ID: fmt.Sprintf("%s#%s%d", pid, mode, bs), Q: delQ, Kind: "delete",
-							Before: encPairs(pairs), Selected: kvKeys(exp), Events: storeEvents(sh.Log), After: encPairs(sh.St.Snapshot()), Modelled: true})
+						dst := &Stmt{Kind: "delete", Where: rc.E}
+						dst.fix()
+						out.Trace("store", storeTrace{ID: fmt.Sprintf("%s#%s%d", pid, mode, bs), Q: delQ, Kind: "delete", Stmt: dst, HasStmt: true,
+							Before: plainPairs(pairs), Events: storeEvents(sh.Log), After: plainPairs(sh.St.Snapshot()), Observed: []obsJ{}, Phase: o.Phase, ErrKind: o.ErrKind, NRows: len(o.Rows)})
 					}
 				}
 			}
